@@ -3,6 +3,7 @@ package sx
 import (
 	"fmt"
 	"go/types"
+	"strings"
 
 	"symgo/smt"
 )
@@ -177,6 +178,65 @@ func registerVF(e *Engine) {
 		}
 		return false
 	}
+	// vf_IPRangeLo/Hi(s): the bounds of an IP range rendered as "a.b.c.d-e.f.g.h" (or a single address)
+	ipRange := func(hi bool) intrinsicFn {
+		return func(fr *frame, args []value) value {
+			m := fr.m
+			switch s := args[0].(type) {
+			case string:
+				parts := strings.Split(s, "-")
+				p := parts[0]
+				if hi {
+					p = parts[len(parts)-1]
+				}
+				v, ok := parseIP4Canonical(p)
+				if !ok {
+					panic(unsupported("vf_IPRange of " + s))
+				}
+				return v
+			case *symStr:
+				var toks []*smt.Term
+				var concrete []uint32
+				var order []bool // true = symbolic token
+				for _, g := range s.segs {
+					switch g.k {
+					case segIP4:
+						toks = append(toks, g.t)
+						order = append(order, true)
+					case segLit:
+						for _, p := range strings.Split(g.lit, "-") {
+							if v, ok := parseIP4Canonical(p); ok {
+								concrete = append(concrete, v)
+								order = append(order, false)
+							}
+						}
+					}
+				}
+				if len(order) == 0 || len(order) > 2 {
+					panic(unsupported("vf_IPRange of " + s.String()))
+				}
+				idx := 0
+				if hi {
+					idx = len(order) - 1
+				}
+				ti, ci := 0, 0
+				for k := 0; k < idx; k++ {
+					if order[k] {
+						ti++
+					} else {
+						ci++
+					}
+				}
+				if order[idx] {
+					return m.mk(toks[ti], types.Uint32)
+				}
+				return concrete[ci]
+			}
+			panic("vf_IPRange")
+		}
+	}
+	vf["vf_IPRangeLo"] = ipRange(false)
+	vf["vf_IPRangeHi"] = ipRange(true)
 	vf["vf_SameString"] = func(fr *frame, args []value) value {
 		switch a := args[0].(type) {
 		case string:
